@@ -17,6 +17,7 @@ import (
 
 	"seata.apache.org/seata-go/pkg/protocol/branch"
 	"seata.apache.org/seata-go/pkg/protocol/message"
+	sgetty "seata.apache.org/seata-go/pkg/remoting/getty"
 	"seata.apache.org/seata-go/pkg/rm"
 
 	"verif/harness/common"
@@ -307,6 +308,19 @@ func main() {
 	tc.InitClient(tc.DefaultConfig())
 	coord := tc.NewTC("10.0.0.1:8091")
 	coord.Observe = observe
+	// a client request of its own that is still waiting for its answer (held back here) while the scenario runs
+	pendID := make(chan int32, 1)
+	var pendHold chan struct{}
+	var pendMu sync.Mutex
+	coord.Script = func(kind string, m tc.Msg) (tc.Reply, bool) {
+		if req, ok := m.Rpc.Body.(message.GlobalBeginRequest); ok && strings.HasPrefix(req.TransactionName, "pend-") {
+			rep := coord.Model(kind, m)
+			rep.HoldBack = pendHold
+			pendID <- m.Rpc.ID
+			return rep, true
+		}
+		return tc.Reply{}, false
+	}
 	sess = coord.OpenSession("s1")
 	time.Sleep(50 * time.Millisecond) // the RegisterTM the client sends on open
 	rmstub.Install(handler)
@@ -378,6 +392,31 @@ func main() {
 				zeroMu.Lock()
 				defer zeroMu.Unlock()
 				byMsg.Store(int32(0), r.zero)
+			}
+			if r.i%16 == 8 && len(r.slots) > 0 {
+				// the coordinator numbers its requests by itself: the first request of this scenario carries the
+				// id of a request of the client's own that is still waiting for its answer (one scenario at a time)
+				pendMu.Lock()
+				defer pendMu.Unlock()
+				pendHold = make(chan struct{})
+				callDone := make(chan struct{})
+				go func() {
+					defer close(callDone)
+					defer func() { recover() }()
+					_, _ = sgetty.GetGettyRemotingClient().SendSyncRequest(message.GlobalBeginRequest{TransactionName: fmt.Sprintf("pend-%d", r.i), Timeout: 30 * time.Second})
+				}()
+				select {
+				case id := <-pendID:
+					s0 := r.slots[0]
+					byMsg.Delete(s0.msgID)
+					s0.msgID = id
+					byMsg.Store(id, s0)
+				case <-time.After(3 * time.Second):
+				}
+				defer func() {
+					close(pendHold)
+					<-callDone
+				}()
 			}
 			r.run(o.Seed)
 		}(r)
